@@ -56,10 +56,7 @@ func dumpCatalog(c *catalog.Catalog) []DSchema {
 		for _, ty := range s.Types {
 			switch t := ty.(type) {
 			case *catalog.Enum:
-				v := t.Vals
-				if v == nil {
-					v = []string{}
-				}
+				v := append([]string{}, t.Vals...)
 				ds.Types = append(ds.Types, DType{"enum", t.Name, v, t.Comment})
 			case *catalog.CompositeType:
 				ds.Types = append(ds.Types, DType{"composite", t.Name, []string{}, t.Comment})
